@@ -13,6 +13,7 @@ mod dump;
 mod c06;
 mod c11;
 mod c14;
+mod c09;
 
 #[global_allocator]
 static GLOBAL: allocrec::Rec = allocrec::Rec;
@@ -38,6 +39,7 @@ fn main() {
         "C20" => c20::run(&mut out, tier, seed, corpus.as_deref()),
         "C02" => c02::run(&mut out, tier, seed, corpus.as_deref()),
         "C08" => c08::run(&mut out, tier, seed, corpus.as_deref()),
+        "C09" | "C18" | "C19" => c09::run(&mut out, tier, seed, corpus.as_deref(), prop),
         "C14" => c14::run(&mut out, tier, seed, corpus.as_deref()),
         "C11" | "C10" => c11::run(&mut out, tier, seed, corpus.as_deref(), prop),
         "C06" | "C07" => c06::run(&mut out, tier, seed, corpus.as_deref(), prop),
